@@ -269,7 +269,7 @@ def optimize_acqf_discrete(
     # Either a fantasy update or a full update, i.e., adding samples along the way.
 
     chosen = 0
-    while chosen < q:
+    while chosen < q and len(choices) > 0:  # a batch cannot be larger than the set of choices
         acq_values = acq(choices)
 
         best_idx = np.argmax(acq_values)
@@ -308,7 +308,11 @@ def optimize_decoupled_acqf_discrete(
         curr_candidate_list, curr_acq_values = optimize_acqf_discrete(acq, q, choices)
         candidate_list = np.concatenate([candidate_list, curr_candidate_list], axis=0)
         acq_values = np.concatenate([acq_values, curr_acq_values], axis=0)
-        eval_indices = np.concatenate([eval_indices, np.full(q, fill_value=eval_i)], axis=0)
+        eval_indices = np.concatenate(
+            [eval_indices, np.full(len(curr_candidate_list), fill_value=eval_i)], axis=0
+        )
+
+    q = min(q, len(acq_values))
 
     # Find indices of the highest q elements
     indices = np.argpartition(acq_values, -q)[-q:]
